@@ -4,6 +4,7 @@ package compose
 
 import (
 	"context"
+	"fmt"
 	"sort"
 	"sync"
 	"time"
@@ -90,8 +91,44 @@ type Entry struct {
 }
 
 type Recorder struct {
-	mu  sync.Mutex
-	log []Entry
+	mu   sync.Mutex
+	log  []Entry
+	kept []keptEvent // listener payloads, held on to the way a listener may (to be read again when the execution is over)
+}
+
+type keptEvent struct {
+	was Entry
+	ev  failsafe.ExecutionAttempt[int]
+}
+
+// AttemptEvent is Attempt for the payload of an event: the payload is also kept, and Unstable reads it again later. What
+// an event reports is what was the case when it was delivered, whoever reads it and whenever.
+func (r *Recorder) AttemptEvent(pol int, name string, e failsafe.ExecutionAttempt[int]) Entry {
+	en := r.Attempt(pol, name, e)
+	r.mu.Lock()
+	r.kept = append(r.kept, keptEvent{en, e})
+	r.mu.Unlock()
+	return en
+}
+
+// Unstable re-reads every kept event payload and describes the first one that no longer says what it said on delivery.
+func (r *Recorder) Unstable() string {
+	r.mu.Lock()
+	kept := append([]keptEvent(nil), r.kept...)
+	r.mu.Unlock()
+	for _, k := range kept {
+		now := r.Attempt(k.was.Pol, k.was.Name, k.ev)
+		w := k.was
+		// (the counters are shared between an execution and its copies by design, so that overlapping attempts see totals:
+		// Attempts, Retries, Hedges and what derives from them keep counting; what was copied by value must stay)
+		// (and LastError reports the context's error once the context is done, when there was no error before)
+		sameErr := SameErr(now.LE, w.LE) || (w.LE == nil && now.Canceled)
+		if now.LV != w.LV || !sameErr || !now.AttemptStart.Equal(w.AttemptStart) || !now.Start.Equal(w.Start) {
+			return fmt.Sprintf("%s (policy %d) said attempts=%d executions=%d retries=%d hedges=%d first=%v retry=%v hedge=%v last=(%d,%v) attemptStart=%v when delivered, and attempts=%d executions=%d retries=%d hedges=%d first=%v retry=%v hedge=%v last=(%d,%v) attemptStart=%v when read again after the execution",
+				w.Name, w.Pol, w.A, w.E, w.R, w.H, w.First, w.Retry, w.Hedge, w.LV, w.LE, w.AttemptStart.UnixNano(), now.A, now.E, now.R, now.H, now.First, now.Retry, now.Hedge, now.LV, now.LE, now.AttemptStart.UnixNano())
+		}
+	}
+	return ""
 }
 
 func (r *Recorder) add(e Entry) {
@@ -105,6 +142,7 @@ func (r *Recorder) add(e Entry) {
 func (r *Recorder) Reset() {
 	r.mu.Lock()
 	r.log = nil
+	r.kept = nil
 	r.mu.Unlock()
 }
 
@@ -275,7 +313,7 @@ func (w *World) build(i int, in Inst) *Built {
 	L := !w.NoListeners
 	on := func(name string) bool { return L && !in.Muted(name) }
 	att := func(name string) func(failsafe.ExecutionEvent[int]) {
-		return func(e failsafe.ExecutionEvent[int]) { rec.add(rec.Attempt(i, name, e.ExecutionAttempt)) }
+		return func(e failsafe.ExecutionEvent[int]) { rec.add(rec.AttemptEvent(i, name, e.ExecutionAttempt)) }
 	}
 	if in.Plain {
 		switch in.Kind {
@@ -367,7 +405,7 @@ func (w *World) build(i int, in Inst) *Built {
 		}
 		if on("OnRetryScheduled") {
 			rb.OnRetryScheduled(func(e failsafe.ExecutionScheduledEvent[int]) {
-				en := rec.Attempt(i, "OnRetryScheduled", e.ExecutionAttempt)
+				en := rec.AttemptEvent(i, "OnRetryScheduled", e.ExecutionAttempt)
 				en.HasDelay, en.Delay = true, e.Delay
 				rec.add(en)
 				if f := cancelOf(e.Context()); in.CancelInScheduled && f != nil {
@@ -474,7 +512,7 @@ func (w *World) build(i int, in Inst) *Built {
 		}
 		if on("OnFailure") {
 			fb.OnFailure(func(e failsafe.ExecutionEvent[int]) {
-				rec.add(rec.Attempt(i, "OnFailure", e.ExecutionAttempt))
+				rec.add(rec.AttemptEvent(i, "OnFailure", e.ExecutionAttempt))
 				if f := cancelOf(e.Context()); in.FbCancelInListener && f != nil {
 					f()
 				}
